@@ -158,9 +158,12 @@ Fixpoint scan (prev : option N) (t : list N) (skip : nat) (acc : list N) : list 
 Definition segments (t : list N) : list seg := scan None t 0 [].
 
 (* ====================== make_link ====================== *)
+(* extra_params: a str, or a callable taking the href and returning the extra text *)
+Inductive extra := XStr (s : list N) | XCall (f : list N -> list N).
+
 Record opts := {
   o_shorten : bool;
-  o_extra : list N;              (* extra_params, a str (callables are not modelled) *)
+  o_extra : extra;               (* extra_params *)
   o_require : bool;              (* require_protocol *)
   o_permitted : list (list N)    (* permitted_protocols *)
 }.
@@ -240,8 +243,15 @@ Inductive piece :=
 | PText (s : list N)
 | PLink (href params label : list N).
 
-Definition base_params (o : opts) : list N :=
-  match o_extra o with [] => [] | e => 32 :: strip e end.
+(* the text put after the href attribute:
+     if extra_params and not callable(extra_params): extra_params = " " + extra_params.strip()   (once, up front)
+     if callable(extra_params): params = " " + extra_params(href).strip()  else: params = extra_params *)
+Definition params_of (x : extra) (href : list N) : list N :=
+  match x with
+  | XStr [] => []
+  | XStr e => 32 :: strip e
+  | XCall f => 32 :: strip (f href)
+  end.
 
 Definition title_attr (href : list N) : list N :=
   [32; 116; 105; 116; 108; 101; 61; 34] ++ href ++ [34].   (* SPACE title=DQUOTE href DQUOTE *)
@@ -253,7 +263,7 @@ Definition make_link (o : opts) (m : mtch) : piece :=
   else
     let href := if has_proto m then url else http_prefix ++ url in
     let '(label, short) := if o_shorten o then shorten_url m else (url, false) in
-    PLink href (base_params o ++ (if short then title_attr href else [])) label.
+    PLink href (params_of (o_extra o) href ++ (if short then title_attr href else [])) label.
 
 Definition a_open : list N := [60; 97; 32; 104; 114; 101; 102; 61; 34].   (* <a href=DQUOTE *)
 Definition a_close : list N := [60; 47; 97; 62].                           (* </a> *)
